@@ -191,6 +191,9 @@ func ZzvC05Ledger() {
 				}
 			}
 		}
+		if n >= 2 && cpuReserved {
+			zzverif.Reach("two-pods-assigned-to-a-cpu-reservation")
+		}
 		zzverif.Assert(len(ri.AssignedPods) == n, "assigned pods are exactly the pods added and not removed")
 		q := ri.Allocated[corev1.ResourceCPU]
 		zzverif.Assert(q.MilliValue() == cpu, "allocated cpu == summed requests of the assigned pods")
